@@ -20,7 +20,7 @@ from fractions import Fraction
 
 ROOT = os.path.dirname(os.path.dirname(os.path.abspath(__file__)))
 REPO = os.environ.get('VERIF_REPO', '/repo')
-EVIDENCE_DIR = os.path.join(ROOT, 'evidence')
+EVIDENCE_DIR = os.environ.get('VERIF_EVIDENCE_DIR') or os.path.join(ROOT, 'evidence')   # override: dev sweeps on changed trees
 REPLAY_DIR = os.path.join(ROOT, 'replays')
 KNOWN_FILE = os.path.join(ROOT, 'known_findings.json')
 GUARD_ENV = 'DTAIDISTANCE_VERIF'
